@@ -558,6 +558,48 @@ def d5_binom(prog, rep):
                                 'coefficients that fit in 64 bits, first C(%d,%d)' % (show(g[0][0])[:40], wit[0], wit[1]) if wit else
                                 'the overflow bail-out tests the whole running coefficient where only its quotient by i is multiplied')
                 continue
+            # any other bail-out test: evaluated under the recurrence invariant c = C(n, i-1) (established above when the split form was read) for
+            # every (n, k) with n <= 70 whose coefficient fits in 64 bits -- the zero may be returned for none of them
+            if form is not None and not problems and g and all(isinstance(vv, bool) for _, vv in g):
+                from math import comb
+                from ..precond import tev as _tev, Frame as _Frame, Uneval as _Uneval, _nk as _nk_
+                wit, unread_g = None, False
+                hi_key = _nk_(hi) if hi is not None else None
+                for n0 in range(1, 71):
+                    for k0 in range(0, n0 + 1):
+                        if comb(n0, k0) >= 2 ** 64:
+                            continue
+                        nk0 = min(k0, n0 - k0)
+                        for i0 in range(1, nk0 + 1):
+                            env = {_nk_(n_): n0, _nk_(k_): k0, _nk_(acc): comb(n0, i0 - 1), _nk_(i): i0}
+                            if hi_key is not None and tag(hi) == 'local':
+                                env[hi_key] = nk0
+                            for m_ in (m1, m2):
+                                if tag(m_) == 'local':
+                                    env[_nk_(m_)] = n0 - i0 + 1
+                            ctx_ = _Frame(None, env=env)
+                            try:
+                                fires = all(bool(_tev(c_, ctx_)) == vv_ for c_, vv_ in g)
+                            except _Uneval:
+                                unread_g = True
+                                fires = False
+                            except (TypeError, ValueError, OverflowError):
+                                unread_g = True
+                                fires = False
+                            if fires:
+                                wit = (n0, k0, i0)
+                                break
+                        if wit or unread_g:
+                            break
+                    if wit or unread_g:
+                        break
+                if wit:
+                    problems.append('the overflow bail-out `%s` fires at step i = %d of C(%d,%d) (running coefficient C(%d,%d) = %d) although C(%d,%d) = %d fits in 64 bits: '
+                                    '0 is returned for a coefficient the property covers' % (show(g[0][0])[:50], wit[2], wit[0], wit[1], wit[0], wit[2] - 1,
+                                                                                             comb(wit[0], wit[2] - 1), wit[0], wit[1], comb(wit[0], wit[1])))
+                    continue
+                if not unread_g:
+                    continue      # never fires for a coefficient that fits (n <= 70): sound as far as the property's exhaustive range goes
             if not bare:
                 undec.append('overflow bail-out %s not recognised' % [show(c)[:50] for c, _ in g])
         else:
